@@ -272,6 +272,9 @@ class ShardResult:
     def nt(self, key):
         self.nontrivial.add(key if isinstance(key, (int, str)) else h64(key))
 
+    def would_keep(self, sig, keep_per_sig=3):
+        return sum(1 for f in self.failures if f["sig"] == sig) < keep_per_sig
+
     def fail(self, sig, what, case, keep_per_sig=3):
         n = sum(1 for f in self.failures if f["sig"] == sig)
         self.count("failures:" + sig)
